@@ -4,8 +4,10 @@ package main
 
 import (
 	"encoding/json"
+	"errors"
 	"fmt"
 	"os"
+	"os/exec"
 	"path/filepath"
 	"strconv"
 	"strings"
@@ -55,6 +57,9 @@ type permOp struct {
 	// exec / validate with a form "sym*" and Decoy: the decoy stands at the LEXICALLY cleaned location
 	// <case>/app/bin/f<p>; DecoyRoot makes it root-controlled (root:root 0755) instead of hostile
 	DecoyRoot bool `json:"decoyroot,omitempty"`
+	// exec / validate: perform the call in a child process of the harness whose real and effective uid (and gid)
+	// is this non-root id (0 = in the harness itself, as root)
+	Euid int `json:"euid,omitempty"`
 }
 type permIn struct {
 	Failing []int    `json:"failing,omitempty"` // ids whose script exits 1 (after waiting for the helper, when one is armed)
@@ -364,6 +369,69 @@ func permCallApi(w *permWrappers, api int, path string) error {
 	}
 }
 
+// permCallAsUser performs one call (api on path, or Validate of path with the loaded variant cfg) in a child process
+// running the harness binary as uid:gid = id:id (driver "permcall" below). Files are prepared by the parent (root).
+func permCallAsUser(workDir string, n int, id int, api int, path string, cfg string) (res int, msg string) {
+	d := filepath.Join(workDir, "euid_"+itoa(n))
+	if err := os.MkdirAll(d, 0o755); err != nil {
+		panic(err)
+	}
+	if err := os.Chown(d, id, id); err != nil {
+		panic(err)
+	}
+	defer os.RemoveAll(d)
+	out := filepath.Join(d, "out.jsonl")
+	cmd := exec.Command(os.Args[0], "permcall", "--out", out, "--work", d, "api="+itoa(api), "path="+path, "cfg="+cfg)
+	cmd.Dir = d
+	cmd.SysProcAttr = &syscall.SysProcAttr{Credential: &syscall.Credential{Uid: uint32(id), Gid: uint32(id)}}
+	if b, err := cmd.CombinedOutput(); err != nil {
+		panic(fmt.Sprintf("perm driver: child as uid %d failed: %v %s", id, err, string(b)))
+	}
+	data, err := os.ReadFile(out)
+	if err != nil {
+		panic(err)
+	}
+	var rec struct {
+		Obs struct {
+			Res  int    `json:"res"`
+			Msg  string `json:"msg"`
+			Euid int    `json:"euid"`
+		} `json:"obs"`
+	}
+	if err := json.Unmarshal([]byte(strings.SplitN(string(data), "\n", 2)[0]), &rec); err != nil {
+		panic(fmt.Sprintf("perm driver: child output unreadable: %v", err))
+	}
+	if rec.Obs.Euid != id {
+		panic(fmt.Sprintf("perm driver: child ran with euid %d instead of %d", rec.Obs.Euid, id))
+	}
+	return rec.Obs.Res, rec.Obs.Msg
+}
+
+func init() {
+	// one call of the real code in this process (which the parent started with a non-root uid)
+	drivers["permcall"] = func(ctx *Ctx) {
+		api := ctx.Param("api", 0)
+		path, cfg := ctx.Params["path"], ctx.Params["cfg"]
+		res, msg := 0, ""
+		var err error
+		pn := catch(func() {
+			if cfg != "" {
+				configuration.CurrentConfig = permLoadVariant(ctx.WorkDir, cfg)
+				err = configuration.Validate(path)
+			} else {
+				w := &permWrappers{sensors: map[string]*sensors.CmdSensor{}, fans: map[string]*fans.CmdFan{}}
+				err = permCallApi(w, api, path)
+			}
+		})
+		if pn != "" {
+			res, msg = 2, pn
+		} else if err != nil {
+			res, msg = 1, err.Error()
+		}
+		ctx.Emit(Record{Obs: map[string]interface{}{"res": res, "msg": msg, "euid": os.Geteuid()}})
+	}
+}
+
 func permReadStarts(marker string) [][4]int {
 	res := [][4]int{}
 	data, err := os.ReadFile(marker)
@@ -588,8 +656,18 @@ func runPerm(workDir string, n int, in permIn) ([]permObs, string) {
 				close(helperDone)
 			}
 			var err error
+			pn := ""
 			permFsMu.RLock()
-			pn := catch(func() { err = permCallApi(wrappers, op.Api, p) })
+			if op.Euid != 0 {
+				_ = os.Chmod(dir, 0o777) // the started script (not root) appends to the marker file
+				if r, m := permCallAsUser(workDir, n, op.Euid, op.Api, p, ""); r == 2 {
+					pn = m
+				} else if r == 1 {
+					err = errors.New(m)
+				}
+			} else {
+				pn = catch(func() { err = permCallApi(wrappers, op.Api, p) })
+			}
 			permFsMu.RUnlock()
 			close(stop)
 			<-helperDone
@@ -623,10 +701,24 @@ func runPerm(workDir string, n int, in permIn) ([]permObs, string) {
 			o := permObs{Stat: permResolveStat(p), Starts: [][4]int{}}
 			p = nameOf(op)
 			var err error
+			if op.Euid != 0 {
+				permFsMu.RLock() // same order as the exec branch: permFsMu before permCfgMu (the child is forked)
+			}
 			permCfgMu.Lock()
 			cfg := permLoadVariant(workDir, op.Cfg)
 			configuration.CurrentConfig = cfg
-			if pn := catch(func() { err = configuration.Validate(p) }); pn != "" {
+			validateCall := func() { err = configuration.Validate(p) }
+			if op.Euid != 0 {
+				validateCall = func() {
+					r, m := permCallAsUser(workDir, n, op.Euid, 0, p, op.Cfg)
+					if r == 2 {
+						panic(m)
+					} else if r == 1 {
+						err = errors.New(m)
+					}
+				}
+			}
+			if pn := catch(validateCall); pn != "" {
 				o.Res = 2
 				o.Msg = pn
 			} else if err != nil {
@@ -635,6 +727,9 @@ func runPerm(workDir string, n int, in permIn) ([]permObs, string) {
 				o.Reason = permReason(o.Msg, true)
 			}
 			permCfgMu.Unlock()
+			if op.Euid != 0 {
+				permFsMu.RUnlock()
+			}
 			obs = append(obs, o)
 			cl := permCfgVariants[op.Cfg].class
 			coqOps = append(coqOps, cRec("OpValidate", cRec("mkCfg", cBool(cl[0] != 0), cBool(cl[1] != 0), cZ(cl[2]), cZ(cl[3])), cZ(op.P)))
@@ -936,6 +1031,32 @@ func init() {
 						ops = append(ops, exec(api, target), exec(api, target), h.change, exec(api, target), exec(api, target), exec(api, target), exec(api, target),
 							h.repair, exec(api, target), h.change, exec(api, target))
 						add([]string{"one-object", "change=" + h.tag, "api=" + itoa(api)}, ops...)
+					}
+				}
+			}
+			// (d6) fan2go running as a NON-ROOT user (calls performed in a child process with uid = gid = 65534): only
+			// root-owned files pass, also not files owned by exactly that user
+			for _, via := range []bool{false, true} {
+				for _, a := range [][3]int{{0, 0, 0o755}, {65534, 65534, 0o755}, {65534, 0, 0o755}, {4242, 0, 0o755}, {0, 65534, 0o775}, {0, 65534, 0o755}} {
+					for api := 0; api <= 5; api++ {
+						ops := []permOp{create(1, a[0], a[1], a[2])}
+						t := 1
+						if via {
+							ops = append(ops, link(2, 1))
+							t = 2
+						}
+						ops = append(ops, permOp{K: "exec", P: t, Api: api, Euid: 65534})
+						add([]string{"non-root-euid", "api=" + itoa(api), "owner=" + itoa(a[0])}, ops...)
+					}
+					for _, v := range []string{"cmdsensor", "cmdfan"} {
+						ops := []permOp{createCfg(1, a[0], a[1], a[2]&^0o111, v)}
+						t := 1
+						if via {
+							ops = append(ops, link(2, 1))
+							t = 2
+						}
+						ops = append(ops, permOp{K: "validate", P: t, Cfg: v, Euid: 65534})
+						add([]string{"non-root-euid", "cfg=" + v, "owner=" + itoa(a[0])}, ops...)
 					}
 				}
 			}
